@@ -81,7 +81,7 @@ def run_span(all_rows, r):
 
 
 KINDS_ALL = ("rowmap", "filter", "merge2", "multi", "loop", "overlap", "overlapm", "downchunk", "exhaust",
-             "recorder", "cut")
+             "recorder", "cut", "multi2")
 # 'mergeonly' (strax.MergeOnlyPlugin) has no v_<name> column of its own: leaf only, opted into per check
 KINDS_WITH_MERGEONLY = KINDS_ALL + ("mergeonly",)
 LAGGING = ("overlap", "overlapm", "downchunk", "exhaust")
@@ -163,6 +163,12 @@ def gen_graph(r, n_derived=(1, 5), n_sources=(1, 2), kinds=KINDS_ALL, n_rows=(0,
             node = {"names": [x, y], "kind": "multi", "dep": d}
             kind_of[x], disjoint[x] = kind_of[d], disjoint[d]
             kind_of[y], disjoint[y] = "k_" + y, disjoint[d]
+        elif kind == "multi2":
+            d = r.choice(usable)
+            x, y = f"{name}x", f"{name}y"
+            node = {"names": [x, y], "kind": "multi2", "dep": d}
+            kind_of[x], disjoint[x] = kind_of[d], disjoint[d]
+            kind_of[y], disjoint[y] = kind_of[d], disjoint[d]
         elif kind == "loop":
             bases = [t for t in usable if disjoint[t]]
             if not bases:
@@ -223,6 +229,38 @@ def gen_graph(r, n_derived=(1, 5), n_sources=(1, 2), kinds=KINDS_ALL, n_rows=(0,
         types.extend(P.names_of(node))
         i += 1
     return {"run_id": "0", "nodes": nodes}
+
+
+def gen_sibling_diamond(r, n_rows=(1, 10), max_chunks=8):
+    """source -> two same-kind outputs of ONE plugin -> asymmetric branches (one may lag) -> merged again.
+
+    Random graphs almost never build this shape, and it is where processors treat sibling outputs of a
+    multi-output plugin differently (one stored and loaded, the other recomputed; one read far ahead of the other).
+    """
+    t_base = EPOCH_NS if r.random() < 0.25 else 0
+    rows = gen_rows(r, r.randint(*n_rows), disjoint=True, t0=t_base)
+    start, end = run_span([rows], r)
+    nodes = [{"name": "sa", "kind": "source", "rows": rows,
+              "bounds": gen_bounds(r, rows, start, end, max_chunks=max_chunks)},
+             {"names": ["n0x", "n0y"], "kind": "multi2", "dep": "sa"}]
+    a, b = ("n0x", "n0y") if r.random() < 0.5 else ("n0y", "n0x")
+    lag = r.choice(["overlap", "overlap", "downchunk", "rowmap"])
+    if lag == "overlap":
+        wl, wr = r.choice([(3, 3), (0, 6), (6, 0), (50, 50), (1600, 1600)])
+        nodes.append({"name": "n1", "kind": "overlap", "dep": a, "wl": wl, "wr": wr, "mode": "rowsum"})
+    elif lag == "downchunk":
+        nodes.append({"name": "n1", "kind": "downchunk", "dep": a, "k": r.randint(1, 4)})
+    else:
+        nodes.append({"name": "n1", "kind": "rowmap", "dep": a, "a": 2, "b": 1})
+    other = b
+    if r.random() < 0.6:
+        nodes.append({"name": "n2", "kind": "rowmap", "dep": b, "a": r.choice([1, 3]), "b": r.randint(0, 5)})
+        other = "n2"
+    deps = ["n1", other]
+    r.shuffle(deps)
+    top = r.choice(["merge2", "recorder"])
+    nodes.append({"name": "n3", "kind": top, "deps": deps})
+    return {"run_id": "0", "nodes": nodes}, "n3"
 
 
 def consumers(spec):
